@@ -120,6 +120,7 @@ type histState struct {
 	used      map[ntp.Time64]bool
 	replies   []sentReply // every reply sent so far (for stale replays)
 	held      []heldReply
+	samePairs int // consecutive requests of this history that came from the same port
 }
 
 type heldReply struct {
@@ -257,13 +258,16 @@ func (p *peer) onRequest(srv int, b []byte, from netip.AddrPort, rxReal time.Tim
 	if ntp.DecodePacket(&req, payload) != nil {
 		return
 	}
+	if n := len(h.attempts); n > 0 && h.attempts[n-1].port == from.Port() {
+		h.samePairs++
+	}
 	// replies held back leave now, for the socket they were meant for
 	for _, hr := range h.held {
 		// ... unless the kernel happened to give the new socket the old port (about 1 in
 		// 28000): then it would reach the current request's socket, which is the stated
 		// boundary of fresh_socket_per_request; the network loses it instead
-		// (not when this client sends most of its requests from one port: then it is no accident)
-		if hr.to != from || (stat.portPairs >= 4 && stat.samePorts*2 > stat.portPairs) {
+		// (not when this client keeps sending from one port: then it is no accident)
+		if hr.to != from || h.samePairs > 1 || (stat.portPairs >= 4 && stat.samePorts*2 > stat.portPairs) {
 			hr.conn.WriteToUDPAddrPort(hr.b, hr.to)
 		}
 	}
